@@ -1,5 +1,6 @@
 SPECIFICATION Spec
 CONSTANTS
+    Focus = "general"
     Cfgs <- McCfgs
     Ctors <- McCtors
     Layouts <- McLayouts
